@@ -10,7 +10,8 @@ where
         usize::try_from(n).map_err(|e| io::Error::new(io::ErrorKind::InvalidData, e))
     })?;
 
-    let mut offsets = Vec::with_capacity(len);
+    // `len` is untrusted: do not allocate for it up front.
+    let mut offsets = Vec::new();
 
     for _ in 0..len {
         let compressed = reader.read_u64_le().await?;
